@@ -111,7 +111,6 @@ Proof.
 Qed.
 
 (* prepareTernaryOpForAST does nothing without '?' *)
-Definition is_q (t : tok) : bool := match t with TQ => true | _ => false end.
 
 Lemma prep_no_q : forall n ts, alltok is_q ts -> prep n ts = ts.
 Proof.
@@ -154,6 +153,7 @@ Proof.
     - intros r a Hr. apply quiet_closer; [right; right; reflexivity|lia].
     - intros _ a. apply quiet_closer; [right; right; reflexivity|lia].
     - intros _ a. apply quiet_closer; [right; right; reflexivity|lia].
+    - intros _ _. apply quiet_closer; [right; right; reflexivity|lia].
     - unfold mkafter. apply cont_quiet; [exact Hrk|].
       intros r Hr. apply quiet_closer; [right; right; reflexivity|exact Hr]. }
   unfold D_COMMA in *. rewrite Hc. reflexivity.
